@@ -142,6 +142,9 @@ func (r *run) judge(endpoint string, s stmt, o outcome, final string, paths []st
 			fam = attribute(s, "rewrite", nil, [2]string{})
 		}
 		c.Tag("canary:" + fam)
+		if s.family == "denylist-gap" {
+			c.Tag("denylist-gap-fn:" + s.shape)
+		}
 		c.Fail("canary-read:"+fam, fmt.Sprintf("response of %s contains canary rows of an unauthorised database; permission-checked pairs: %s", endpoint, fmtChecked(o.checked)), rep)
 	}
 	executed := o.status != 400 && o.status != 403
@@ -174,6 +177,9 @@ func (r *run) judge(endpoint string, s stmt, o outcome, final string, paths []st
 			fam := attribute(s, mech, o.checked, k)
 			c.Fail("canary-read:"+fam, fmt.Sprintf("%s executed successfully and DuckDB's parse of the executed text reads stored files of %s.%s; permission-checked pairs: %s", endpoint, k[0], k[1], fmtChecked(o.checked)), rep)
 			c.Tag("unchecked-read:" + fam)
+			if s.family == "denylist-gap" {
+				c.Tag("denylist-gap-fn:" + s.shape)
+			}
 		} else {
 			c.Tag("nearmiss:unchecked-files-named-but-exec-failed:" + errClass(o.errText))
 		}
